@@ -41,7 +41,7 @@ ASSUMPTIONS = [
 ]
 TRUSTED_BASE = ['vf/monitors/c31.py: IRLexer/unescapeString/type_expr transcription', 'vf/shims/pkgs/parsimonious', 'vf/gen_hail_types.py']
 SHARDS = {'quick': 1, 'thorough': 16}
-TIMEOUT = {'quick': 600, 'thorough': 1800}
+TIMEOUT = {'quick': 900, 'thorough': 1800}
 FLOORS = {
     'roundtrip_checked': 2000, 'engine_types_judged': 1500, 'engine_identifiers_judged': 20000, 'escaped_identifiers': 5000,
     'bare_identifiers': 1000, 'name_category': 17,
